@@ -22,7 +22,7 @@ const (
 )
 
 type tok struct {
-	k   byte // 'i' identifier, 'n' integer literal, 'f' float literal, 'p' punctuation, 0 end
+	k   byte // 'i' identifier, 'n' integer literal, 'f' float literal, 'p' punctuation, 'a' MSL [[attribute]], 0 end
 	s   string
 	u   uint32
 	uns bool
@@ -85,10 +85,12 @@ func lex(src string, d Dialect) ([]tok, string) {
 			continue
 		}
 		if d == MSL && c == '[' && i+1 < n && src[i+1] == '[' {
-			for i+1 < n && !(src[i] == ']' && src[i+1] == ']') {
-				i++
+			j := i + 2
+			for j+1 < n && !(src[j] == ']' && src[j+1] == ']') {
+				j++
 			}
-			i += 2
+			out = append(out, tok{k: 'a', s: src[i+2 : j]})
+			i = j + 2
 			continue
 		}
 		if isIdStart(c) {
